@@ -294,6 +294,7 @@ type c05replay struct {
 	Env    map[string]int32 `json:"env"`
 	Bools  map[string]bool  `json:"bools"`
 	Struct bool             `json:"struct"`
+	Raw    bool             `json:"raw,omitempty"` // Src is a complete program to Eval
 }
 
 func c05goatTree(src string) (string, string) {
@@ -533,6 +534,18 @@ func c05run(r *report.Run) {
 						}
 						r.Fail(&report.Case{Kind: "value", Key: fmt.Sprintf("%s with %v %v", j.src, ienv, benv), Input: c05replay{Src: j.src, Env: ienv, Bools: benv}, Want: wantV, Got: gotV})
 					}
+					// the same expression with the operands written as literals, and as locals of a function
+					// (different instruction windows: PUSH/CONST and LOCALGET instead of GLOBALGET)
+					if used <= 2 {
+						for _, mode := range []string{"literals", "locals"} {
+							src2 := c05respell(j.src, env, names, mode)
+							g2 := c05evalSrc(src2)
+							r.Eval(1)
+							if g2 != wantV {
+								r.Fail(&report.Case{Kind: "value-" + mode, Key: src2, Input: c05replay{Src: src2, Raw: true}, Want: wantV, Got: g2})
+							}
+						}
+					}
 				}
 				if remaining == 0 {
 					break
@@ -604,10 +617,67 @@ func c05welltyped(e ast.Expr, ty map[string]c05type) bool {
 	return ok
 }
 
+// c05respell rewrites the expression with literal operands, or wraps it in a function with local operands.
+func c05respell(src string, env map[string]c05val, names []string, mode string) string {
+	lit := func(v c05val) string {
+		if v.t == tBool {
+			return fmt.Sprint(v.b)
+		}
+		if v.i < 0 {
+			return fmt.Sprintf("(%d)", v.i) // a negative literal operand needs parentheses to stay one operand
+		}
+		return fmt.Sprint(v.i)
+	}
+	if mode == "literals" {
+		var b strings.Builder
+		for i := 0; i < len(src); i++ {
+			ch := src[i]
+			if ch >= 'a' && ch <= 'e' {
+				if v, ok := env[string(ch)]; ok {
+					b.WriteString(lit(v))
+					continue
+				}
+			}
+			b.WriteByte(ch)
+		}
+		return b.String()
+	}
+	var decl []string
+	for _, n := range names {
+		v := env[n]
+		if v.t == tBool {
+			decl = append(decl, fmt.Sprintf("\t%s := %v\n", n, v.b))
+		} else {
+			decl = append(decl, fmt.Sprintf("\t%s := %d\n", n, v.i))
+		}
+	}
+	return "func f() any {\n" + strings.Join(decl, "") + "\treturn " + src + "\n}\nr := f()\nr\n"
+}
+
+func c05evalSrc(src string) string {
+	m := goat.New()
+	defer m.Close()
+	res := m.Eval(nil, src)
+	if res.HostPanic != nil {
+		return fmt.Sprintf("HOSTPANIC %v", res.HostPanic)
+	}
+	if res.Err != nil {
+		return "panic"
+	}
+	if len(res.Rets) != 1 {
+		return fmt.Sprintf("%d values", len(res.Rets))
+	}
+	return res.Rets[0].String()
+}
+
 func c05rerun(c *report.Case) (bool, string) {
 	var in c05replay
 	if !remarshal(c.Input, &in) {
 		return false, "bad replay input"
+	}
+	if in.Raw {
+		got := c05evalSrc(in.Src)
+		return got != c.Want, got
 	}
 	if in.Struct {
 		got, status := c05goatTree(in.Src)
